@@ -29,18 +29,20 @@ use zkchannels_crypto::{
 // shared input generators (also used by the C08 monitor)
 // ------------------------------------------------------------------------------------------
 
-pub(crate) const EDGE_NAMES: [&str; 7] = ["0", "1", "q-1", "small", "2^63-1", "2^63", "random"];
+pub(crate) const EDGE_NAMES: [&str; 9] = ["0", "1", "q-1", "small", "2^63-1", "2^63", "random", "2^63|r", "2^64-1"];
 
-/// One entry of EDGE = {0, 1, q-1, small, 2^63-1, 2^63, random}.
+/// One entry of EDGE = {0, 1, q-1, small, 2^63-1, 2^63, random, a 64-bit value with bit 63 set, 2^64-1}.
 pub(crate) fn edge_scalar(class: usize, rng: &mut impl RngCore) -> Scalar {
-    match class % 7 {
+    match class % 9 {
         0 => Scalar::zero(),
         1 => Scalar::one(),
         2 => q_minus_1(),
         3 => Scalar::from(2 + (rng.next_u32() % 65_534) as u64),
         4 => Scalar::from(i64::MAX as u64),
         5 => Scalar::from(1u64 << 63),
-        _ => Scalar::random(&mut *rng),
+        6 => Scalar::random(&mut *rng),
+        7 => Scalar::from(rng.next_u64() | (1 << 63)),
+        _ => Scalar::from(u64::MAX),
     }
 }
 
@@ -51,18 +53,18 @@ pub(crate) struct Msg<const N: usize> {
     pub name: String,
 }
 
-/// Message number `mi`: 0..7 all coordinates of one EDGE class; 7..14 the EDGE classes laid out
-/// cyclically from a shifting start; from 14 on every coordinate draws its class at random.
+/// Message number `mi`: 0..9 all coordinates of one EDGE class; 9..18 the EDGE classes laid out
+/// cyclically from a shifting start; from 18 on every coordinate draws its class at random.
 pub(crate) fn edge_message<const N: usize>(mi: usize, rng: &mut impl RngCore) -> Msg<N> {
     let mut vals = [Scalar::zero(); N];
     let mut classes = [0usize; N];
     for i in 0..N {
-        let cl = if mi < 7 {
+        let cl = if mi < 9 {
             mi
-        } else if mi < 14 {
-            (i + mi - 7) % 7
+        } else if mi < 18 {
+            (i + mi - 9) % 9
         } else {
-            (rng.next_u32() % 7) as usize
+            (rng.next_u32() % 9) as usize
         };
         classes[i] = cl;
         vals[i] = edge_scalar(cl, rng);
@@ -377,7 +379,7 @@ fn attacker_case<const N: usize>(c: &mut Ctx, name: &str, k: usize) {
         Err(e) => return c.inconclusive(&e),
     };
     let reps = c.tier.pick(1usize, 4);
-    let mis: Vec<usize> = if c.tier.pick(true, false) { vec![0, 2, 9, 14] } else { (0..16).collect() };
+    let mis: Vec<usize> = if c.tier.pick(true, false) { vec![0, 2, 7, 11, 18] } else { (0..20).collect() };
     for &mi in &mis {
         for rep in 0..reps {
             let m = edge_message::<N>(mi, &mut rng);
@@ -528,7 +530,7 @@ fn crafted_key_case<const N: usize>(c: &mut Ctx, name: &str) {
                 }
             };
             let env = Env { pk: kp.public_key(), pka: &pka };
-            let m = edge_message::<N>(14 + d, &mut rng);
+            let m = edge_message::<N>(18 + d, &mut rng);
             let sig = Message::new(m.vals).sign(&mut rng, &kp);
             let info = json!({"key_generated_under_zero_window": [d, width], "message_classes": m.name});
             c.distinct(&format!("crafted-key/N={}/{}x{}", N, d, width));
@@ -576,7 +578,7 @@ fn degenerate_case<const N: usize>(c: &mut Ctx, name: &str, k: usize) {
         Err(e) => return c.inconclusive(&e),
     };
     let env = Env { pk: kp.public_key(), pka: &pka };
-    let m = edge_message::<N>(7 + k, &mut rng);
+    let m = edge_message::<N>(9 + k, &mut rng);
     let msg = Message::new(m.vals);
     let honest = msg.sign(&mut rng, &kp);
     let mut seed = [0u8; 32];
@@ -584,7 +586,7 @@ fn degenerate_case<const N: usize>(c: &mut Ctx, name: &str, k: usize) {
 
     // messages on which the degenerate signatures are tried: the signed one, all EDGE constants, mixed
     let mut tries: Vec<(String, [Scalar; N])> = vec![("signed-message".into(), m.vals)];
-    for mi in [0usize, 1, 2, 5, 6, 14] {
+    for mi in [0usize, 1, 2, 5, 6, 7, 18] {
         let t = edge_message::<N>(mi, &mut rng);
         tries.push((t.name.clone(), t.vals));
     }
@@ -690,7 +692,7 @@ fn run_n<const N: usize>(c: &mut Ctx, keys: usize, msgs: usize) {
 pub fn run(c: &mut Ctx) {
     c.note(
         "rule",
-        json!("For every N in {1,2,3,5,8,13} and every key pair k: (a) chain cases, one per message number: message entries from EDGE={0,1,q-1,small,2^63-1,2^63,random} (numbers 0-6 constant class, 7-13 cyclic layouts, 14+ random class per coordinate); the signature starts from sign (message number + key number even) or request-proof -> blind_sign -> unblind (odd), followed by 0-3 random steps of randomize / blind_and_randomize(bf in {0,1,q-1,random}) [-> BlindedSignature::randomize] -> unblind, verified after every step; the final signature is compared on the right message, on every coordinate changed by +1 and to a random value (plus -1 / another EDGE value on one coordinate; all coordinates in the thorough tier), on two exchanged coordinates, under a second key, and after blinding again and unblinding with the matching factor and with wrong ones (+1, random, 0, negated). (b) attacker cases: signatures decoded from bytes (honest bytes, re-randomised outside the API, forged with the secret scalars read from the key pair's wire form, off by one, (P,xP), random points, sigma2 = identity, negated / exchanged halves, sigma1 = identity and all-identity which must not decode). (c) degenerate cases: ScriptRng returns 64 zero bytes at the scalar draw of randomize / blind_and_randomize / BlindedSignature::new / blind_sign, the resulting all-identity signature is tried on seven messages and after further API steps, next to its unscripted twin. Every verify call is compared with ps_verify_ref on atoms read from the wire. Distinct = (N, key, per-coordinate message classes, derivation chain, check) tuple."),
+        json!("For every N in {1,2,3,5,8,13} and every key pair k: (a) chain cases, one per message number: message entries from EDGE={0,1,q-1,small,2^63-1,2^63,random,2^63|r,2^64-1} (numbers 0-8 constant class, 9-17 cyclic layouts, 18+ random class per coordinate); the signature starts from sign (message number + key number even) or request-proof -> blind_sign -> unblind (odd), followed by 0-3 random steps of randomize / blind_and_randomize(bf in {0,1,q-1,random}) [-> BlindedSignature::randomize] -> unblind, verified after every step; the final signature is compared on the right message, on every coordinate changed by +1 and to a random value (plus -1 / another EDGE value on one coordinate; all coordinates in the thorough tier), on two exchanged coordinates, under a second key, and after blinding again and unblinding with the matching factor and with wrong ones (+1, random, 0, negated). (b) attacker cases: signatures decoded from bytes (honest bytes, re-randomised outside the API, forged with the secret scalars read from the key pair's wire form, off by one, (P,xP), random points, sigma2 = identity, negated / exchanged halves, sigma1 = identity and all-identity which must not decode). (c) degenerate cases: ScriptRng returns 64 zero bytes at the scalar draw of randomize / blind_and_randomize / BlindedSignature::new / blind_sign, the resulting all-identity signature is tried on seven messages and after further API steps, next to its unscripted twin. Every verify call is compared with ps_verify_ref on atoms read from the wire. Distinct = (N, key, per-coordinate message classes, derivation chain, check) tuple."),
     );
     let keys = c.tier.pick(3usize, 10);
     let msgs = c.tier.pick(24usize, 80);
